@@ -168,6 +168,8 @@ impl Manager {
     pub fn remove_connection(&self) {
         #[cfg(feature = "graceful-shutdown")]
         {
+            #[cfg(feature = "verif-hooks")]
+            crate::verif::point("rm.enter", 0);
             // - 1 at the end because fetch returns the old value.
             let connections = self.connections.fetch_sub(1, Ordering::AcqRel) - 1;
             if connections < 0 {
@@ -178,8 +180,12 @@ impl Manager {
                 );
             }
             if connections <= 0 {
+                #[cfg(feature = "verif-hooks")]
+                crate::verif::point("rm.dec", connections as i64);
                 let shutdown = self.shutdown.load(Ordering::Acquire);
                 if shutdown {
+                    #[cfg(feature = "verif-hooks")]
+                    crate::verif::point("rm.flag", 1);
                     debug!("There are no connections. Shutting down.");
                     #[allow(clippy::used_underscore_items)] // cfg
                     self._shutdown();
@@ -189,6 +195,8 @@ impl Manager {
                 "Current connections: {}",
                 self.connections.load(Ordering::Acquire)
             );
+            #[cfg(feature = "verif-hooks")]
+            crate::verif::point("rm.exit", 0);
         }
     }
     /// Retrieves the number of current connections.
@@ -262,7 +270,11 @@ impl Manager {
             "Initiating shutdown. Handover path: {:?}",
             self.handover_socket_path
         );
+        #[cfg(feature = "verif-hooks")]
+        crate::verif::point("sh.enter", 0);
         self.shutdown.store(true, Ordering::Release);
+        #[cfg(feature = "verif-hooks")]
+        crate::verif::point("sh.set", 0);
         self.inititate_channel
             .0
             .send(())
@@ -273,7 +285,11 @@ impl Manager {
             std::fs::remove_file(path).ok();
         }
 
+        #[cfg(feature = "verif-hooks")]
+        crate::verif::point("sh.init", 0);
         if self.connections.load(Ordering::Acquire) <= 0 {
+            #[cfg(feature = "verif-hooks")]
+            crate::verif::point("sh.swap", 0);
             #[allow(clippy::used_underscore_items)] // cfg
             self._shutdown();
         }
@@ -284,7 +300,11 @@ impl Manager {
 
         // we stop listening immediately
         info!("Notifying wakers.");
+        #[cfg(feature = "verif-hooks")]
+        crate::verif::point("sh.notify", 0);
         unsafe { &*self.wakers.get() }.lock().unwrap().notify();
+        #[cfg(feature = "verif-hooks")]
+        crate::verif::point("sh.exit", 0);
     }
     #[cfg(feature = "graceful-shutdown")]
     fn _shutdown(&self) {
@@ -296,13 +316,19 @@ impl Manager {
         let pre_channel = self.pre_shutdown_channel.0.clone();
         let count = Arc::clone(&self.pre_shutdown_count);
         tokio::spawn(async move {
+            #[cfg(feature = "verif-hooks")]
+            crate::verif::point("ct.start", 0);
             let mut confirmation_channel = tokio::sync::mpsc::unbounded_channel();
             // UNWRAP: `self` will always have 1 instance,
             // and `self` doesn't get dropped before we tell `channel` to shutdown.
             pre_channel.send(confirmation_channel.0).unwrap();
+            #[cfg(feature = "verif-hooks")]
+            crate::verif::point("ct.sent", 0);
             let mut recieved = 0;
             let wanted = count.load(Ordering::Acquire);
             loop {
+                #[cfg(feature = "verif-hooks")]
+                crate::verif::point("ct.loop", recieved as i64);
                 if recieved >= wanted {
                     break;
                 }
@@ -311,6 +337,8 @@ impl Manager {
             }
             info!("Sending shutdown signal");
             let _ = channel.send(());
+            #[cfg(feature = "verif-hooks")]
+            crate::verif::point("ct.exit", 0);
         });
     }
     /// Waits for Kvarn to enter the `shutdown` state.
@@ -557,15 +585,23 @@ impl AcceptFuture<'_> {
                 self.manager.shutdown.load(Ordering::Acquire)
             );
             let shutdown_fut = std::future::poll_fn(|cx| {
+                #[cfg(feature = "verif-hooks")]
+                crate::verif::point("ap.poll", 0);
                 if self.manager.shutdown.load(Ordering::Acquire) {
                     return Poll::Ready(());
                 }
+                #[cfg(feature = "verif-hooks")]
+                crate::verif::point("ap.flag", 0);
                 self.manager.set_waker(self.index, Waker::clone(cx.waker()));
+                #[cfg(feature = "verif-hooks")]
+                crate::verif::point("ap.waker", 0);
                 // `shutdown()` may have set the flag and notified the wakers between the check above and
                 // the registration of our waker; nobody would wake us then.
                 if self.manager.shutdown.load(Ordering::Acquire) {
                     return Poll::Ready(());
                 }
+                #[cfg(feature = "verif-hooks")]
+                crate::verif::point("ap.checked", 0);
                 Poll::Pending
             });
             match self.listener {
